@@ -3,7 +3,8 @@
    input when they succeed.  These are the consumption lemmas behind C06_parse_total. *)
 From Coq Require Import List NArith ZArith Bool Lia Arith.
 From Okv Require Import Model.Lit Model.Syntax Model.Comb Model.ParseExpr Model.ParseMeta
-  Model.ParsePosting Model.ParseTxn Model.ParseDirective Model.ParseLedger Proofs.CombSpec.
+  Model.ParsePosting Model.ParseTxn Model.ParseDirective Model.ParseLedger Proofs.CombSpec
+  Proofs.ParseExprErase.
 Import ListNotations.
 
 Create HintDb psafe.
@@ -92,17 +93,51 @@ Lemma cons_mul_op : forall n, cons n mul_op.
 Proof. intros. unfold mul_op. apply cons_alt; apply cons_bind_l; auto with psafe; psafe. Qed.
 #[export] Hint Resolve safe_amount cons_add_op cons_mul_op : psafe.
 
-Lemma safe_infixl : forall n fuel op operand, (n <= fuel)%nat -> cons n op -> safe n operand ->
-  safe n (infixl fuel op operand).
+(* the chain loop of infixl: every turn consumes the operator, so fuel >= length suffices *)
+Lemma safe_chain_loop : forall n (op : parser s_binop) (p : parser s_expr), safe n p -> cons n op ->
+  forall fuel i lhs, (length i <= fuel)%nat -> (length i <= n)%nat ->
+    match chain_loop fuel op p lhs i with
+    | POk _ r => suffix r i
+    | PErr _ _ r => suffix r i
+    | _ => False
+    end.
 Proof.
-  intros. unfold infixl. apply safe_separated_foldl1; auto.
-  apply cons_delimited_m; auto with psafe.
+  intros n op p Hp Hop.
+  assert (Hsep : cons n (delimited space0 op space0)) by (apply cons_delimited_m; auto with psafe).
+  induction fuel; intros i lhs Hfu Hn; cbn [chain_loop].
+  - specialize (Hsep i Hn). destruct (delimited space0 op space0 i) as [b r | [] l r | |]; auto with sfx.
+    destruct Hsep as [Hs Hlt]. lia.
+  - specialize (Hsep i Hn). destruct (delimited space0 op space0 i) as [b r | [] l r | |]; auto with sfx.
+    destruct Hsep as [Hs Hlt].
+    assert (H2 : (length r <= n)%nat) by lia. specialize (Hp r H2).
+    destruct (p r) as [a r' | [] l r' | |]; auto with sfx.
+    + destruct Hp as [Hs' _].
+      destruct (fits_under _); [| auto with sfx].
+      assert (H3 : (length r' <= fuel)%nat) by (apply suffix_length in Hs'; lia).
+      assert (H4 : (length r' <= n)%nat) by (apply suffix_length in Hs'; lia).
+      specialize (IHfuel r' (SBinary b lhs a) H3 H4).
+      destruct (chain_loop fuel op p (SBinary b lhs a) r'); auto;
+        (eapply suffix_trans; [eassumption |]; eapply suffix_trans; eauto).
+    + eapply suffix_trans; eauto.
 Qed.
-Lemma safe_unary_expr : forall n ve, safe n ve -> safe n (unary_expr ve).
+Lemma safe_infixl_e : forall n fuel op operand, (n <= fuel)%nat -> cons n op -> safe n operand ->
+  safe n (infixl_e fuel op operand).
 Proof.
-  intros n ve H i Hi. unfold unary_expr. destruct i as [| c r]; [simpl; auto with sfx |].
+  intros n fuel op operand Hfu Hop Hp i Hi. unfold infixl_e.
+  pose proof (Hp i Hi) as H0. destruct (operand i) as [a m | | |]; auto. destruct H0 as [Hs _].
+  pose proof (safe_chain_loop n op operand Hp Hop fuel m a) as H.
+  assert (H1 : (length m <= fuel)%nat) by (apply suffix_length in Hs; lia).
+  assert (H2 : (length m <= n)%nat) by (apply suffix_length in Hs; lia).
+  specialize (H H1 H2). destruct (chain_loop fuel op operand a m); auto.
+  - split; [eapply suffix_trans; eauto | exact I].
+  - eapply suffix_trans; eauto.
+Qed.
+Lemma safe_unary_e : forall n ve, safe n ve -> safe n (unary_e ve).
+Proof.
+  intros n ve H i Hi. unfold unary_e. destruct i as [| c r]; [simpl; auto with sfx |].
   destruct (N.eqb c 45).
-  - unfold negate_expr. assert (S : safe n (pmap (fun v => SUnaryNeg (SValue v)) (preceded (chr 45) ve))) by psafe.
+  - unfold negate_e.
+    match goal with |- context [try_map ?p ?f] => assert (S : safe n (try_map p f)) by psafe end.
     apply S; assumption.
   - assert (S : safe n (pmap SValue ve)) by psafe. apply S; assumption.
 Qed.
@@ -112,15 +147,17 @@ Proof.
   - destruct (N.eqb c 40); auto with sfx.
     assert (S : safe n (pmap SAmount amount)) by psafe. apply S; assumption.
   - destruct (N.eqb c 40).
-    + match goal with |- context [pmap SParen ?p] => assert (S : safe n (pmap SParen p)) end.
-      { apply safe_pmap, safe_paren, safe_delimited; auto with psafe.
-        apply safe_infixl; auto with psafe. apply safe_infixl; auto with psafe.
-        apply safe_unary_expr. exact IHd. }
+    + match goal with |- context [paren_e ?p] => assert (S : safe n (paren_e p)) end.
+      { unfold paren_e. apply safe_try_map, safe_paren, safe_delimited; auto with psafe.
+        apply safe_infixl_e; auto with psafe. apply safe_infixl_e; auto with psafe.
+        apply safe_unary_e. exact IHd. }
       apply S; assumption.
     + assert (S : safe n (pmap SAmount amount)) by psafe. apply S; assumption.
 Qed.
 Lemma safe_value_expr : forall n fuel, (n <= fuel)%nat -> safe n (value_expr fuel).
-Proof. intros. unfold value_expr. now apply safe_value_expr_d. Qed.
+Proof.
+  intros n fuel H i Hi. rewrite value_expr_erase. exact (safe_value_expr_d n fuel max_expr_depth H i Hi).
+Qed.
 #[export] Hint Resolve safe_value_expr : psafe.
 
 (* ---- metadata.rs ---- *)
